@@ -209,6 +209,8 @@ def run(rep, tier):
         rep.ob('R-FWD', 'default;nonforwarder;%s' % fn['id'], False, 'reference form is not a pure forwarder (%s)' % why)
     rep.floor('R-FWD', 80)
     quantize_shape(rep, db)
+    from . import deps
+    deps.run(rep, tier, ('R', 'W'))      # proofs of the summaries this check relies on
     rep.explanation = ('Per (p, q, n) cell - quick: the 5^3 boundary cells, thorough: all 19^3 - and per operand form (Decimal/Decimal, Decimal/int, int/Decimal, int/int) the MIR of '
                        'div_rounded / mul_rounded is interpreted with symbolic operands and the proved rounding summaries: n > 18 is rejected by every implementation; a zero divisor panics; '
                        'otherwise the result is the single term Rnd[thread](exact rational) at scale exactly n (exact product at scale p+q when n >= p+q; (0,0) for a zero operand); '
